@@ -129,6 +129,14 @@ def s_exists(xs, pred):
     return ops.s_or(*[_as_bool(merged_call(pred, [x], exc_as_false=True)) for x in I.iterate(xs)])
 
 
+def s_balanced(terms):
+    I = interp_ref[0]
+    acc = 0
+    for t in I.iterate(terms):
+        acc = I.binop('+', acc, t)
+    return eq_value(acc, 0)
+
+
 def s_indices(xs):
     from . import seq
     return seq.indices(xs)
@@ -217,7 +225,7 @@ def spec_module():
             'contract': Builtin('contract', _contract), 'lemma': Builtin('lemma', _lemma),
             'eq': _B('eq', s_eq), 'implies': _B('implies', s_implies), 'iff': _B('iff', s_iff),
             'forall': _B('forall', s_forall), 'exists': _B('exists', s_exists), 'ite': _B('ite', s_ite),
-            'indices': _B('indices', s_indices), 'total': _B('total', s_total),
+            'indices': _B('indices', s_indices), 'total': _B('total', s_total), 'balanced': _B('balanced', s_balanced),
             'is_real': _B('is_real', s_is_real), 'ge': _B('ge', s_ge), 'le': _B('le', lambda a, b: s_ge(b, a)),
             'json_file': _B('json_file', lambda doc: __import__('pyvc.builtins_', fromlist=['VFile']).VFile(__import__('pyvc.builtins_', fromlist=['_text_dump'])._text_dump('json', doc))),
             'raised': Builtin('raised', lambda a, k: s_raised(*a)), 'nonsingular': _B('nonsingular', s_nonsingular),
